@@ -294,7 +294,6 @@ func c19OnlyKeysDropped(a, b interface{}) bool {
 	return true
 }
 
-
 // ------------------------------------------------------------ applicability / input family
 
 // parameters of a call supplied by its wildcard binding (the compiler appends
